@@ -176,7 +176,7 @@ class Run:
         return out.splitlines()
 
     # ------------------------------------------------------------------ Rust harness
-    def cargo_build(self, binname, release=False, features=()):
+    def cargo_build(self, binname, release=False, features=(), no_hooks=False):
         """build one harness binary against /repo's current tree.  A non-default feature set gets
         its own target directory so that alternating builds do not recompile minijinja each time."""
         cmd = ["cargo", "build", "--offline", "--bin", binname]
@@ -187,6 +187,11 @@ class Run:
         if features:
             cmd += ["--features", ",".join(features)]
             target = CARGO_TARGET + "-" + "-".join(sorted(features))
+            env["CARGO_TARGET_DIR"] = target
+        if no_hooks:
+            # the crates under test are compiled WITHOUT verif_hooks (what real users compile)
+            cmd.append("--no-default-features")
+            target = target + "-nohooks"
             env["CARGO_TARGET_DIR"] = target
         rc, out, err = sh(cmd, cwd=HARNESS, timeout=3000, env=env)
         if rc != 0:
